@@ -474,6 +474,45 @@ mod proofs {
     std::mem::forget(gl);
     std::mem::forget(g);
   }
+  /// concrete goals `x ,` (named leaf then unnamed token -- the "trailing separator" layout),
+  /// symbolic candidates, concrete strictness
+  fn sep_sound(k: usize, s: u8) {
+    let gv = [G::T, G::T];
+    let mut goals = [Leaf { kind: K_IDENT, named: true, text: b'x' }; KMAX];
+    goals[1] = Leaf { kind: K_PUNCT_A, named: false, text: anon_text(K_PUNCT_A) };
+    let mut cands = goals;
+    let mut i = 0;
+    while i < KMAX {
+      if i < k {
+        cands[i] = any_leaf(false);
+      }
+      i += 1;
+    }
+    let gl = goal_list(&gv, &goals, 2);
+    let mut src = [b' '; 2 * KMAX];
+    let d = flat_tree_w(&cands, k, K_CALL, &mut src, 2);
+    let g = mk_grep(as_str(&src, 2 * k), d);
+    let got = match_children_end(&gl, &g.root(), &strictness_of(s)).is_some();
+    let want = legal(&gv, &goals, 2, &cands, k, s);
+    kani::cover!(got);
+    kani::cover!(!got);
+    if got {
+      assert!(want, "reported match has no legal alignment");
+    }
+    std::mem::forget(gl);
+    std::mem::forget(g);
+  }
+  #[kani::proof]
+  #[kani::unwind(8)]
+  fn c03_sep_ast_k2() {
+    sep_sound(2, 2);
+  }
+  #[kani::proof]
+  #[kani::unwind(8)]
+  fn c03_sep_relaxed_k2() {
+    sep_sound(2, 3);
+  }
+
   macro_rules! tt_harness {
     ($name:ident, [$($g:expr),*], $k:expr, $s:expr) => {
       #[kani::proof]
